@@ -288,7 +288,7 @@ func paramKinds(f *ssa.Function) []string {
 
 var idKindExceptions = map[string]string{
 	"x/lend/keeper.Keeper.CreteNewBorrow -> GetLendPair arg 1 (id)": "v1 liquidation stores the lend pair id of a lend-type locked vault in LockedVault.ExtendedPairId (documented reuse of the field)",
-	"x/lend/keeper.Keeper.CreteNewBorrow -> GetBorrow arg 1 (ID)": "v1 liquidation stores the borrow id of a lend-type locked vault in LockedVault.OriginalVaultId (documented reuse of the field)",
+	"x/lend/keeper.Keeper.CreteNewBorrow -> GetBorrow arg 1 (ID)":   "v1 liquidation stores the borrow id of a lend-type locked vault in LockedVault.OriginalVaultId (documented reuse of the field)",
 }
 
 // idKindRule checks every call in the operational code of the given modules.
